@@ -104,9 +104,7 @@ func Now() Time {
 	if s == nil {
 		return Epoch
 	}
-	c := vrt.Clock()
-	s.Observe(uint64(c))
-	return at(c)
+	return at(vrt.Clock())
 }
 
 // NanoTime is what the replaced internal/xtime returns.
@@ -115,9 +113,7 @@ func NanoTime() int64 {
 	if s == nil {
 		return 0
 	}
-	c := vrt.Clock()
-	s.Observe(uint64(c))
-	return c + 1_000_000_000 // arbitrary non-zero origin like the monotonic clock
+	return vrt.Clock() + 1_000_000_000 // arbitrary non-zero origin like the monotonic clock
 }
 
 func Since(t Time) Duration { return Now().Sub(t) }
